@@ -49,6 +49,13 @@ CLAIMS.update({
                 note=REASM_NOTE + " PARTIAL: timeout clauses checked on traces with real time (30 ms timeouts, 70 ms sleeps), not yet proved; time.Now() is bracketed by stamps.", technique="Coq proofs (Close) + trace checker with real sleeps + correspondence", design="6 C19"),
 })
 
+CLAIMS["C18"] = dict(
+    text="Proof: C18_frame (every message: header length/type/flags/port id, payload verbatim, wire sequence = returned sequence), C18_audit_parser (every buffer: EINVAL below 16 bytes, else the UAPI header fields and everything after byte 16), "
+         "C18_seq_increasing / C18_seq_distinct (returned numbers increase and are pairwise distinct for any interleaving of the atomic increments), C18_receive_kernel_only (data only for a datagram of at least a header from port 0). "
+         "Tie: serialize and the parser through verif accessors; Send and Receive over live NETLINK_ROUTE / NETLINK_USERSOCK sockets (kernel's verbatim quote of the request; datagrams from a second user-space socket).",
+    note="Trusted: Coq kernel + VM; Model/Netlink.v; Spec/Uapi.v; live-socket observations (skipped and recorded when netlink is unavailable). PARTIAL: that the kernel stamps senders' port ids and that atomic.AddUint32 is atomic are runtime facts; the Receive decision logic is modelled (not driven with injected sender addresses). No axioms.",
+    technique="Coq proofs of the framing codec + live-socket correspondence", design="6 C18")
+
 NOT_YET = {}
 
 def main():
